@@ -359,11 +359,18 @@ func (c *Ctx) evalCall(x *ECall) CVal {
 			cfail("%s: wrong number of arguments", x.Fn)
 		}
 		var as []string
-		for _, a := range x.Args {
-			as = append(as, c.evalInt(a).S)
+		for i, a := range x.Args {
+			v := c.eval(a)
+			if want := ufSort(uf.Params[i].Type); v.T.Sort != want {
+				cfail("%s: argument %d has sort %s, want %s", x.Fn, i+1, v.T.Sort, want)
+			}
+			as = append(as, v.T.S)
 		}
 		e.usedUF[x.Fn] = true
-		return CVal{T: Term{app("uf_"+x.Fn, as...), sInt}}
+		if len(as) == 0 {
+			return CVal{T: Term{"uf_" + x.Fn, ufSort(uf.Result)}}
+		}
+		return CVal{T: Term{app("uf_"+x.Fn, as...), ufSort(uf.Result)}}
 	}
 	if uf, ok := e.p.ufs[x.Fn]; ok {
 		if len(x.Args) != len(uf.args) {
@@ -464,4 +471,14 @@ func exprString(x Expr) string {
 		return "<" + x.v.T.S + ">"
 	}
 	return "?"
+}
+
+func ufSort(t string) string {
+	switch t {
+	case "Str", "string":
+		return sStr
+	case "bool", "Bool":
+		return sBool
+	}
+	return sInt
 }
